@@ -101,7 +101,7 @@ def o_apply(inp):
     fld = out_entry.fields[1]
     got = fld.value
     m = month_of(value) if key == "month" else 0
-    classes = ["months" if m else ("unspecified" if m is None else "non-month"), "mws%d" % len(inp["mws"]),
+    classes = ["months" if m else ("unspecified" if m is None else "non-month"), "mws%d" % min(len(inp["mws"]), 3),
                "inplace" if inp["inplace"] else "copy"]
     # the rest of the library is untouched
     if canon(out_other) != other_canon:
@@ -164,15 +164,19 @@ NON_MONTHS = [
 UNSPECIFIED = ["１", "²", "٣", "①", "1２", "१२", "⑫", "Ⅻ", "½", "１３"]
 
 PAIRS = [(a,) for a in MW] + [(a, b) for a in MW for b in MW]
+TRIPLES = [(a, b, c) for a in MW for b in MW for c in MW]
 
 
 def w_exhaustive(acc, lo, hi):
     sp = month_spellings()
     cases = []
-    for v in sp[lo:hi]:
+    for k, v in enumerate(sp[lo:hi]):
         for mws in PAIRS:
             for inplace in (True, False):
                 cases.append({"v": v, "mws": list(mws), "inplace": inplace})
+        for mws in TRIPLES:
+            # chains of three (e.g. Long, Int, Long): the entry already carries the first middleware's metadata
+            cases.append({"v": v, "mws": list(mws), "inplace": (k + len(mws[0])) % 2 == 0})
     harness.run_cases(acc, "apply", o_apply, cases, distinct_by_construction=True)
 
 
@@ -204,7 +208,7 @@ def w_random(acc, n, seed):
         st.integers(-20, 40),
         st.integers(),
     )
-    strat = st.fixed_dictionaries({"v": texts, "mws": st.sampled_from(PAIRS).map(list), "inplace": st.booleans()})
+    strat = st.fixed_dictionaries({"v": texts, "mws": st.sampled_from(PAIRS + TRIPLES).map(list), "inplace": st.booleans()})
     harness.run_hyp(acc, "apply", o_apply, strat, n, seed)
 
 
